@@ -1476,6 +1476,43 @@ func ruleR0415(c *Ctx) {
 			if wrapped == nil {
 				return true
 			}
+			// a function of the module that hands its error parameter back as it is (tracing, logging) wraps nothing
+			if cal := Callee(info, call); cal != nil && cal.Pkg() == root.Types {
+				if hd := findFuncDecl(root, cal); hd != nil && hd.Body != nil {
+					identity, nr := true, 0
+					var eparams []types.Object
+					if hd.Type.Params != nil {
+						for _, fl := range hd.Type.Params.List {
+							for _, nm := range fl.Names {
+								if isErrorType(info.TypeOf(nm)) {
+									eparams = append(eparams, info.Defs[nm])
+								}
+							}
+						}
+					}
+					inspectNoLit(hd.Body, func(y ast.Node) bool {
+						if rr, ok := y.(*ast.ReturnStmt); ok && len(rr.Results) > 0 {
+							nr++
+							id, ok := ast.Unparen(rr.Results[len(rr.Results)-1]).(*ast.Ident)
+							isParam := false
+							if ok {
+								for _, ep := range eparams {
+									if info.ObjectOf(id) == ep && countAssignments(info, hd, ep) == 0 {
+										isParam = true
+									}
+								}
+							}
+							if !isParam {
+								identity = false
+							}
+						}
+						return true
+					})
+					if identity && nr > 0 {
+						return true
+					}
+				}
+			}
 			k++
 			n++
 			key := fmt.Sprintf("%s#wraps-nested-error[%d]", name, k)
